@@ -212,6 +212,92 @@ Case genC() {
   return c;
 }
 
+// part "success": the C++ API's success clause.  Every way of loading paths (direct, or through a ReuseableDataContainer64),
+// every clip type including NoClip, every fill rule, every Execute overload, optionally after Clear() or a previous
+// Execute: Execute returns true, and NoClip (or an empty clipper) yields empty solutions.
+Verdict judgeSuccess(const Case& c) {
+  Verdict v;
+  const Paths64 &subj = c.P("subj"), &clip = c.P("clip"), &open = c.P("open");
+  ClipType ct = (ClipType)c.I("ct");
+  FillRule fr = (FillRule)c.I("fr");
+  int feed = (int)c.I("feed"), overload = (int)c.I("overload"), pre = (int)c.I("pre");
+  std::string what = std::string(" [") + (ct == ClipType::NoClip ? "NoClip" : O::ctName(ct)) + "," + O::frName(fr) + ",feed=" +
+                     (feed == 0 ? "AddSubject/AddClip" : feed == 1 ? "AddReuseableData" : "mixed") + ",overload=" + std::to_string(overload) + ",pre=" + std::to_string(pre) + "]";
+  ReuseableDataContainer64 rdc;
+  if (feed >= 1) { rdc.AddPaths(subj, PathType::Subject, false); if (!open.empty()) rdc.AddPaths(open, PathType::Subject, true); if (feed == 1) rdc.AddPaths(clip, PathType::Clip, false); }
+  auto load = [&](Clipper64* c64) {
+    if (feed == 0) { c64->AddSubject(subj); if (!open.empty()) c64->AddOpenSubject(open); c64->AddClip(clip); }
+    else { c64->AddReuseableData(rdc); if (feed == 2) c64->AddClip(clip); }
+  };
+  auto run = [&](Clipper64& cl, ClipType t, bool& emptyOut) {
+    Paths64 sol, so; PolyTree64 tree;
+    bool ok;
+    if (overload == 0) { ok = cl.Execute(t, fr, sol); emptyOut = sol.empty(); }
+    else if (overload == 1) { ok = cl.Execute(t, fr, sol, so); emptyOut = sol.empty() && so.empty(); }
+    else if (overload == 2) { ok = cl.Execute(t, fr, tree); emptyOut = tree.Count() == 0; }
+    else { ok = cl.Execute(t, fr, tree, so); emptyOut = tree.Count() == 0 && so.empty(); }
+    v.evals++;
+    return ok;
+  };
+  Clipper64 cl;
+  cl.PreserveCollinear(c.I("pc") != 0);
+  bool emptyOut = false;
+  if (pre == 1) { load(&cl); if (!run(cl, (ClipType)(1 + c.I("prect") % 4), emptyOut)) { v.fail("first Execute returned false" + what); return v; } }
+  else if (pre == 2) { load(&cl); cl.Clear(); if (!run(cl, ct, emptyOut)) { v.fail("Execute on a cleared clipper returned false" + what); return v; }
+                       if (!emptyOut) { v.fail("a cleared clipper returned a non-empty solution" + what); return v; } }
+  if (pre != 1) load(&cl);
+  if (!run(cl, ct, emptyOut)) { v.fail("Execute returned false" + what); return v; }
+  if (ct == ClipType::NoClip && !emptyOut) { v.fail("NoClip gave a non-empty solution" + what); return v; }
+  // ClipperD: same clause on the scaled input (precision 2), direct loading only
+  if (O::maxAbs(subj) < (int64_t(1) << 40) && O::maxAbs(clip) < (int64_t(1) << 40) && O::maxAbs(open) < (int64_t(1) << 40)) {
+    ClipperD cd(2);
+    cd.AddSubject(TransformPaths<double, int64_t>(subj)); cd.AddClip(TransformPaths<double, int64_t>(clip));
+    if (!open.empty()) cd.AddOpenSubject(TransformPaths<double, int64_t>(open));
+    PathsD sol, so; PolyTreeD tree; bool ok, emp;
+    if (overload == 0) { ok = cd.Execute(ct, fr, sol); emp = sol.empty(); }
+    else if (overload == 1) { ok = cd.Execute(ct, fr, sol, so); emp = sol.empty() && so.empty(); }
+    else if (overload == 2) { ok = cd.Execute(ct, fr, tree); emp = tree.Count() == 0; }
+    else { ok = cd.Execute(ct, fr, tree, so); emp = tree.Count() == 0 && so.empty(); }
+    v.evals++;
+    if (!ok) { v.fail("ClipperD::Execute returned false" + what); return v; }
+    if (ct == ClipType::NoClip && !emp) { v.fail("ClipperD: NoClip gave a non-empty solution" + what); return v; }
+  }
+  v.nontrivial = feed != 0 || ct == ClipType::NoClip || pre != 0;
+  ST.count(std::string("feed_") + (feed == 0 ? "direct" : feed == 1 ? "reuseable" : "mixed"));
+  if (ct == ClipType::NoClip) ST.count("noclip");
+  return v;
+}
+
+Case genSuccess() {
+  Case c;
+  c.i["ct"] = G::chance(25) ? 0 : G::range(1, 4);
+  c.i["fr"] = G::range(0, 3);
+  c.i["feed"] = G::range(0, 2);
+  c.i["overload"] = G::range(0, 3);
+  c.i["pre"] = G::chance(50) ? 0 : G::range(1, 2);
+  c.i["prect"] = G::range(0, 3);
+  c.i["pc"] = G::range(0, 1);
+  int shape = (int)G::range(0, 4);
+  if (shape <= 1) {
+    // degenerate material: empty, 1- and 2-point paths, horizontal-only paths, coincident points
+    GEN::DegPool pool;
+    int64_t M = GEN::magOfClass((int)G::range(0, 2));
+    c.p["subj"] = GEN::degPaths(3, 6, M, pool);
+    c.p["clip"] = G::chance(30) ? Paths64() : GEN::degPaths(3, 6, M, pool);
+    if (G::chance(40)) c.p["open"] = GEN::degPaths(2, 5, M, pool);
+    if (G::chance(25)) for (auto* pp : {&c.p["subj"], &c.p["clip"]}) for (auto& p : *pp) for (auto& q : p) q.y = 5;   // horizontal only
+  } else {
+    int64_t R = G::oneOf(std::vector<int64_t>{100, 10000, int64_t(1) << 30});
+    Paths64 s, cl, op;
+    int ns = (int)G::range(0, 2), nc = (int)G::range(0, 2), no = (int)G::range(0, 2);
+    for (int k = 0; k < ns; ++k) s.push_back(GEN::randomPath(1, 7, R));
+    for (int k = 0; k < nc; ++k) cl.push_back(GEN::randomPath(1, 7, R));
+    for (int k = 0; k < no; ++k) op.push_back(GEN::randomPath(1, 5, R));
+    c.p["subj"] = s; c.p["clip"] = cl; c.p["open"] = op;
+  }
+  return c;
+}
+
 }  // namespace
 
 int main(int argc, char** argv) {
@@ -219,5 +305,6 @@ int main(int argc, char** argv) {
   H.property = "C11";
   H.parts.push_back({"report", genReport, judgeReport, nullptr, true});
   H.parts.push_back({"cboundary", genC, judgeC, nullptr, true});
+  H.parts.push_back({"success", genSuccess, judgeSuccess, nullptr, true});
   return harnessMain(argc, argv, H);
 }
